@@ -190,6 +190,7 @@ def run(ctx: Ctx):
 
     _fusion_formula(ctx, fwd, sl, pt, rel, where_f)
     _mass_constants(ctx, adv, rel, where_a)
+    _beam_filled_when_no_frame_was_processed(ctx, fwd, rel, where_f)
     # ---- S3 padding sentinels ---------------------------------------------------------------------
     _s3(ctx, adv, fwd, sl, rel)
 
@@ -647,6 +648,78 @@ def _mass_constants(ctx: Ctx, adv, rel, where_a):
            f"duplicates enter a beam wider than the live prefixes", rel, bad[0][0].lineno if bad else adv.line,
            sample=[f"{u(c)[-50:]} -> {v}" for c, v in sites])
     col.floor("mass_constant_sites", len(sites), 3)
+
+
+def _beam_filled_when_no_frame_was_processed(ctx: Ctx, fwd, rel: str, where_f: str):
+    """S6: the search returns `width` slots per element whatever happened. The beam starts one slot wide (the empty prefix) and
+    becomes `width` wide in the first processed frame; the frame loop runs `max(lens)` times, NOT `T` times, so for a padded batch
+    whose every element is empty no frame is processed although T > 0. The fill-up after the loop must therefore run exactly when
+    the beam still has one slot and width != 1. Decided as a truth table: the test of every `if` that follows the frame loop and
+    reads the slot counter, the loop's trip count or the padded length is evaluated (sa/inteval.py) in the states
+    (padded length T, frames processed L <= T, configured width), with the slot counter 1 if L == 0 else width."""
+    from sa.inline import Inliner
+    from sa.inteval import NotEvaluable, int_eval
+    col = ctx.col
+    body = fwd.node.body
+    loops = [st for st in body if isinstance(st, ast.For) and isinstance(st.iter, ast.Call) and call_name(st.iter) == "range" and len(st.iter.args) == 1]
+    if not loops:
+        raise AnalysisError("C05: the frame loop `for t in range(...)` of CTCPrefixSearch.forward was not found at the top level")
+    loop = loops[-1]
+    rd = ReachingDefs(fwd.node)
+    # the slot counter: a name set to 1 before the loop and to the configured width inside it
+    inside = {n.targets[0].id for n in ast.walk(loop) if isinstance(n, ast.Assign) and len(n.targets) == 1 and isinstance(n.targets[0], ast.Name)
+              and u(n.value) == "self.width"}
+    before = {n.targets[0].id for n in body[:body.index(loop)] if isinstance(n, ast.Assign) and len(n.targets) == 1 and isinstance(n.targets[0], ast.Name)
+              and isinstance(n.value, ast.Constant) and n.value.value == 1}
+    counters = inside & before
+    if len(counters) != 1:
+        col.undecided(f"{where_f}: the slot counter (1 before the frame loop, self.width inside it) was not found: {sorted(counters)}")
+        return
+    W = next(iter(counters))
+    trip = loop.iter.args[0]
+    trip_names = {x.id for x in ast.walk(trip) if isinstance(x, ast.Name)}
+    # the padded length: first component of the shape of the first tensor argument
+    first = [p.name for p in fwd.params if p.name != "self"][0]
+    Tn = None
+    for n in own_nodes(fwd.node):
+        if isinstance(n, ast.Assign) and isinstance(n.targets[0], ast.Tuple) and u(n.value) in (f"{first}.shape", f"{first}.size()") \
+                and isinstance(n.targets[0].elts[0], ast.Name):
+            Tn = n.targets[0].elts[0].id
+    after = body[body.index(loop) + 1:]
+    inl = Inliner(fwd.node, rd, keep=tuple({W} | trip_names | ({Tn} if Tn else set())))
+    tests = []
+    for st in after:
+        if isinstance(st, ast.If):
+            ex = inl.expand(st.test)
+            names = {x.id for x in ast.walk(ex) if isinstance(x, ast.Name)}
+            if names & ({W} | trip_names | ({Tn} if Tn else set())):
+                tests.append((st, ex))
+    col.floor("fill_up_tests_after_the_frame_loop", len(tests), 1)
+    bad = None
+    try:
+        for st, ex in tests:
+            for T_ in (0, 4):
+                for L in sorted({0, min(2, T_), T_}):
+                    for width in (1, 3):
+                        env = {W: 1 if L == 0 else width, "self.width": width}
+                        if Tn:
+                            env[Tn] = T_
+                        env[u(trip)] = L
+                        for nm in trip_names:
+                            env.setdefault(nm, L)
+                        got = bool(int_eval(ex, env))
+                        want = env[W] == 1 and width != 1
+                        if got != want and bad is None:
+                            bad = (st, T_, L, width, got)
+    except NotEvaluable as e:
+        col.undecided(f"{where_f}: the test of the fill-up after the frame loop depends on something else than the slot counter, the "
+                      f"number of processed frames and the padded length ({e})")
+        return
+    col.ob("G12", "S6", f"{where_f}::beam-filled-exactly-when-no-frame-was-processed", bad is None,
+           (f"`if {u(bad[0].test)[:60]}` is {bad[4]} for a batch padded to T={bad[1]} of which {bad[2]} frame(s) were processed (max(lens)={bad[2]}) "
+            f"with width={bad[3]}; the beam then has {1 if bad[2] == 0 else bad[3]} slot(s), so the fill-up to `width` slots must "
+            f"{'run' if not bad[4] else 'not run'}: the result has the wrong number of slots (an all-empty padded batch returns a single slot "
+            f"instead of `width`)") if bad else "", rel, bad[0].lineno if bad else loop.lineno, sample=dict(tests=len(tests)))
 
 
 def _mutants():
